@@ -130,6 +130,11 @@ class FakeServer:
         short one whose ANSWER record is of another type than its QUESTION (dns_decode decodes by the question's type and reports the answer's)"""
         r = self.rng
         name, i = pq["qd"][0][0], pq["id"]
+        if r.random() < 0.4:
+            # both in ONE datagram: a raw record that fills the buffer, reported as MX/SRV, whose bytes look like an encoded host name (codec letter
+            # first, no NUL anywhere): the caller walks "names" in what is not a list of names
+            body = bytes([r.choice(b"hHiIjJkKlL")]) + bytes(r.choice(b"abcdefghijklmnopqrstuvwxyz012345") for _ in range(r.choice([4094, 4095, 4096, 5000])))
+            return [P.answer(r.choice([i, i, 0]), name, r.choice([P.T_NULL, P.T_PRIVATE]), [body], atype=r.choice([P.T_MX, P.T_SRV]))]
         fill = P.answer(r.choice([i, i, 0]), name, r.choice([P.T_NULL, P.T_PRIVATE]), [bytes([r.randrange(1, 256)]) * r.choice([4095, 4096, 4096, 4097, 5000])])
         qt = r.choice([P.T_NULL, P.T_PRIVATE, P.T_TXT, P.T_MX, P.T_CNAME])
         data = bytes(r.randrange(1, 256) for _ in range(r.choice([2, 3, 12, 100])))
